@@ -317,6 +317,8 @@ def camp_tree_plain(rnd, tier, kinds=QUAD_PLAIN):
     for ty in types:
         for name, s in tree_input_shapes(rnd, tier, ty):
             ks = kinds if tier == "thorough" and len(s) < 5000 else [next(kk)]
+            if len(ks) == 1 and len(s) >= 4096 and len(kinds) > 1:
+                ks.append(next(kk))     # long inputs on both block sizes (consecutive kinds alternate 256 / 512)
             for kind in ks:
                 b.reset()
                 o = b.newt(kind, ty, next(paths), s)
@@ -956,8 +958,9 @@ def camp_c12(rnd, tier):
         b.ith(o, "iter", "b" * (n + 3) + "l" + "n" + "l")
         # the skipping calls nth(1), nth(3), nth_back(2) mixed with the plain ones
         for _ in range(3):
-            w = "".join(rnd.choice("njkbBl") for _ in range(n // 2 + rnd.choice([0, 5, 20])))
+            w = "".join(rnd.choice("njkbBlh") for _ in range(n // 2 + rnd.choice([0, 5, 20])))
             b.ith(o, rnd.choice(["iter", "into_iter"]), w, keep=1)
+        b.ith(o, "iter", "hn" + "n" * (n + 1) + "hnh")
         b.ith(o, "into_iter", "n" * (n + 2), keep=0)
     # forward iterators of bit vectors (with len), quad vectors, position iterators, DArray
     for n in list(range(0, maxn + 1)) + [63, 64, 65, 130, 511, 512, 513, 1024]:
@@ -990,12 +993,17 @@ def camp_c12(rnd, tier):
             b.ith(q, "iter", "n" * (n + 4))
             b.ith(q, "ref_into_iter", "n" * (n + 4))
             b.ith(q, "into_iter", "n" * (n + 4), keep=1)
-            b.ith(q, "iter", "".join(rnd.choice("njkl") for _ in range(n // 2 + 4)))
-            b.ith(q, "into_iter", "".join(rnd.choice("njk") for _ in range(n // 2 + 4)), keep=1)
+            b.ith(q, "iter", "".join(rnd.choice("njklh") for _ in range(n // 2 + 4)))
+            b.ith(q, "into_iter", "".join(rnd.choice("njkh") for _ in range(n // 2 + 4)), keep=1)
+            # the reported remaining length before, at and after exhaustion
+            b.ith(q, "iter", "h" + "n" * (n + 1) + "hnnh")
+            b.ith(q, "into_iter", "h" + "n" * (n + 1) + "hnnh", keep=1)
         for o in (bv, bvm, da):
-            b.ith(o, "iter", "".join(rnd.choice("njkl") for _ in range(n // 2 + 4)))
-            b.ith(o, "ones", "".join(rnd.choice("njk") for _ in range(n // 3 + 4)))
-            b.ith(o, "zeros", "".join(rnd.choice("njk") for _ in range(n // 3 + 4)))
+            b.ith(o, "iter", "".join(rnd.choice("njklh") for _ in range(n // 2 + 4)))
+            b.ith(o, "iter", "h" + "n" * (n + 1) + "hnnh")
+            b.ith(o, "ones", "".join(rnd.choice("njkh") for _ in range(n // 3 + 4)))
+            b.ith(o, "zeros", "".join(rnd.choice("njkh") for _ in range(n // 3 + 4)))
+            b.ith(o, "ones", "h" + "n" * (n + 1) + "hnh")
         b.ith(bv, "into_iter", "".join(rnd.choice("njkl") for _ in range(n // 2 + 4)), keep=1)
     return b
 
@@ -1029,8 +1037,8 @@ def qv_observe(b, o, n, rnd):
     b.ith(o, "iter", "n" * min(n + 3, 600))
     b.ith(o, "into_iter", "n" * min(n + 3, 600), keep=1)
     # skipping iteration: nth(1) / nth(3) mixed with next; from element 128 on in longer vectors
-    b.ith(o, "iter", "".join(rnd.choice("njk") for _ in range(min(n // 2 + 3, 300))))
-    b.ith(o, "into_iter", "k" * min(n // 4 + 2, 200), keep=1)
+    b.ith(o, "iter", "".join(rnd.choice("njkh") for _ in range(min(n // 2 + 3, 300))))
+    b.ith(o, "into_iter", "k" * min(n // 4 + 2, 200) + "hnh", keep=1)
 
 
 def camp_c13(rnd, tier):
@@ -1680,7 +1688,8 @@ def space_tree_inputs(rnd, tier, ty, huff):
         rare = [5, 300, 70000, (1 << 17) + 9, (1 << 20) + 1, 1 << 16]
         out.append(("highsyms_dom", runs_profile(rnd, [(1 << 18) + 1000] + rare, [180000] + [3000 + 500 * i for i in range(len(rare))])))
     for n in ([1000, 20000] if tier == "quick" else [10, 1000, 20000, 100000]):
-        for mx in rnd.sample([1, 3, 4, 15, 16, 255, 256, 1000, 65535], 3 if tier == "quick" else 6):
+        # (always one largest symbol of the form 4^j - 1 and one 2^k: the level count is exact there)
+        for mx in rnd.sample([1, 3, 4, 15, 16, 255, 256, 1000, 65535], 3 if tier == "quick" else 6) + [rnd.choice([3, 15, 63, 255]), rnd.choice([4, 8, 64, 128])]:
             mx = min(mx, T)
             k = min(mx + 1, 60)
             alph = sorted(set([0, mx] + [rnd.randrange(mx + 1) for _ in range(k)]))
